@@ -14,6 +14,17 @@ namespace etl::chrono {
 template <typename>
 struct is_clock : etl::false_type { };
 
+template <typename T>
+    requires requires {
+        typename T::rep;
+        typename T::period;
+        typename T::duration;
+        typename T::time_point;
+        T::is_steady;
+        T::now();
+    }
+struct is_clock<T> : etl::true_type { };
+
 /// \ingroup chrono
 template <typename T>
 inline constexpr bool is_clock_v = is_clock<T>::value;
